@@ -57,6 +57,11 @@ func buildCorpus(seed uint64) []CorpusItem {
 	full := CfgSpec{Present: true, Funcs: 1<<nFuncs - 1}
 	for _, fp := range []string{
 		`[?(@.a == 1)]`, `[?(@.b)].a`, `[?(@.a > 1)].b`, `a`, `a.b`, `list[0].a`, `['a']`, `["c"][0]`, `[0]`, `[*]`, `*`, `[0,1]`,
+		// operands that may select several values are refused in comparisons, whatever step
+		// kind they end in; and the verdicts "every member matches" / "none does" that such
+		// operands must never reach
+		`$.list[?(@.a < $.c[::-1])]`, `$.list[?($.c[1:] >= @.a)]`, `$.list[?(@.a == $.c[*])]`, `$.list[?($.c[::-1] =~ /1/)]`, `$.list[?(@.a > $.c[0,1])]`, `$.list[?(@.a <= $..a)]`, `$.list[?(@.a != $.x.*)]`,
+		`$.list[?(!@.zz)].a`, `$.list[?($.a)].b`, `$.list[?(!$.zz)]`, `$.list[?($.zz)]`, `$[?(!@.zz)]`,
 		`$.m[?(@.a == 1)]`, `$.m[?(@.a == '1')]`, `$.m[?(@.a == true)]`, `$.m[?(@.a == 'true')]`, `$.m[?(@.a == null)]`, `$.m[?(@.a == '<nil>')]`, `$.m[?(@.a >= 1)]`, `$.m[?(@.a == "1")]`,
 		`$['k\tv']`, `$[?(@.b == 'k\tv')]`, `$["k\tv"]`, `$[?(@.b == "k\tv")]`, `$['\u0061']`, `$[?(@.b == '\u0061')]`, `$.list[?(@.b == 'x')]`, `$['x']`,
 	} {
